@@ -211,6 +211,7 @@ def rule_prereq(ctx):
     C02.rule_structural_equality(R.Retag(ctx, "C02."))
     C12.rule_R10(R.Retag(ctx, "C12."))
     C12.rule_R12(R.Retag(ctx, "C12."))
+    C12.rule_enum_pair_tables(R.Retag(ctx, "C12."), C12._score_tables(R.Retag(ctx, "C12.")))
     C12.rule_components(R.Retag(ctx, "C12."), C12._score_tables(R.Retag(ctx, "C12.")))
     # .. and every component of the signature takes part in the distance (two bundled signatures that differ only in a component the
     # sum forgot are one entry for the matcher: the later one is unreachable)
